@@ -200,7 +200,7 @@ func (v *FnVC) init(key string) string {
 			if a := v.allocatedAt(Term{"(select " + n + " r!)", t}, "|nextref@0|"); a != "true" {
 				v.ensureNextref()
 				v.init("nextref")
-				fmt.Fprintf(&v.body, "(assert (forall ((r! Int)) (! %s :pattern ((select %s r!)))))\n", a, n)
+				fmt.Fprintf(&v.body, "(assert (forall ((r! Int)) (! (=> (< r! |nextref@0|) %s) :pattern ((select %s r!)))))\n", a, n)
 			}
 		}
 	}
@@ -208,7 +208,7 @@ func (v *FnVC) init(key string) string {
 		if a := v.allocatedAt(Term{"(select (select " + n + " r!) j!)", t}, "|nextref@0|"); a != "true" {
 			v.ensureNextref()
 			v.init("nextref")
-			fmt.Fprintf(&v.body, "(assert (forall ((r! Int) (j! Int)) (! %s :pattern ((select (select %s r!) j!)))))\n", a, n)
+			fmt.Fprintf(&v.body, "(assert (forall ((r! Int) (j! Int)) (! (=> (< r! |nextref@0|) %s) :pattern ((select (select %s r!) j!)))))\n", a, n)
 		}
 	}
 	return n
